@@ -287,9 +287,49 @@ func c12Run(c Case) (Result, error) {
 		// concurrent burst; the first result that differs from the sequential key replaces the
 		// second-call observation (a panic in a goroutine is reported as such)
 		want := hx(sk.Encode())
+		// half of the goroutines generate keys of the OTHER algorithms from other seeds at the same time
+		// (state shared between algorithms, e.g. a scratch value kept at package level, shows up here only)
+		type other struct {
+			alg  crypto.SigningAlgorithm
+			seed []byte
+			want string
+		}
+		var others []other
+		for i, oa := range []crypto.SigningAlgorithm{crypto.ECDSAP256, crypto.ECDSASecp256k1, crypto.BLSBLS12381} {
+			seed := make([]byte, 48+i)
+			for j := range seed {
+				seed[j] = byte(j*7+i) ^ input[j%len(input)]
+			}
+			if k, e := crypto.GeneratePrivateKey(oa, seed); e == nil {
+				others = append(others, other{oa, seed, hx(k.Encode())})
+			}
+		}
 		var mu sync.Mutex
 		var wg sync.WaitGroup
-		diff, cpanic := "", ""
+		diff, cpanic, cother := "", "", ""
+		for g := 0; g < 8 && len(others) > 0; g++ {
+			wg.Add(1)
+			o := others[g%len(others)]
+			go func() {
+				defer wg.Done()
+				defer func() {
+					if e := recover(); e != nil {
+						mu.Lock()
+						cpanic = fmt.Sprint(e)
+						mu.Unlock()
+					}
+				}()
+				for k := 0; k < in.Conc; k++ {
+					s, e := crypto.GeneratePrivateKey(o.alg, append([]byte{}, o.seed...))
+					if e != nil || hx(s.Encode()) != o.want {
+						mu.Lock()
+						cother = fmt.Sprintf("GeneratePrivateKey(%v, %x) run next to key generation of another algorithm returned a different key (err %v)", o.alg, o.seed, e)
+						mu.Unlock()
+						return
+					}
+				}
+			}()
+		}
 		for g := 0; g < 16; g++ {
 			wg.Add(1)
 			go func() {
@@ -317,6 +357,9 @@ func c12Run(c Case) (Result, error) {
 			}()
 		}
 		wg.Wait()
+		if cother != "" {
+			return Result{}, implViolation("%s", cother)
+		}
 		if cpanic != "" {
 			concBad, concNote = true, "panic in a concurrent call: "+cpanic
 		} else if diff != "" {
